@@ -281,8 +281,12 @@ func (pp *PathComponentPagePattern) hasSamePathComponentsAs(parsedURL *nurl.URL)
 	// Trim trailing shtml extension from doc URL path
 	parsedURLPath := rxEndOrHasSHTML.ReplaceAllString(parsedURL.Path, "")
 
+	// ... and from the pattern as well (in the original both go through ParsedUrl.getTrimmedPath),
+	// otherwise /a/[*!]/abc.html never matches the doc URL /a/2/abc.html.
+	patternPath := rxEndOrHasSHTML.ReplaceAllString(pp.url.Path, "")
+
 	urlComponents := strings.Split(parsedURLPath, "/")
-	patternComponents := strings.Split(pp.url.Path, "/")
+	patternComponents := strings.Split(patternPath, "/")
 	passedParamComponent := false
 
 	for i, j := 0, 0; i < len(urlComponents) && j < len(patternComponents); i, j = i+1, j+1 {
